@@ -131,21 +131,28 @@ func genC20(c *Ctx) *c20case {
 	cs.Piped = w.Chance(1, 2)
 	// how eventful the behaviour table is
 	pBreak, pFail, pCont := 0, 0, 0
-	switch w.Draw(4) {
+	switch w.Draw(5) {
 	case 0: // all succeed
 	case 1:
 		pFail = 2
+	case 4: // many callbacks fail, so that failures overlap
+		pFail = 10
 	case 2:
 		pBreak = 1
 		pCont = 2
 	default:
 		pBreak, pFail, pCont = 1, 2, 2
 	}
+	// Delays on a coarse grid make callbacks finish at the same simulated
+	// instant, so that their completions (and failures) interleave.
+	grid := w.Draw(3)
 	for i := 0; i < cs.N; i++ {
 		b := c20beh{Outcome: "ok"}
-		switch w.Draw(4) {
-		case 0:
-		case 1:
+		switch {
+		case grid == 0:
+			b.DelayUS = 100 * w.Draw(3)
+		case w.Chance(1, 4):
+		case w.Chance(1, 3):
 			b.DelayUS = 1 + 2*w.Draw(50)
 		default:
 			b.DelayUS = 1 + 2*w.Draw(2000)
